@@ -136,7 +136,7 @@ func ParentMain(propID, tier string, replayFile string) int {
 
 	var extraEnv []string
 	if p.ChildEnv != nil {
-		extraEnv = p.ChildEnv(tier)
+		extraEnv = p.ChildEnv(tier, runDir)
 	}
 
 	total := NewStats()
@@ -268,6 +268,25 @@ func ParentMain(propID, tier string, replayFile string) int {
 					if idx < 0 {
 						addInc(fmt.Sprintf("child replica=%d shard=%d exited %d before its first case: %s", st.replica, st.shard, exit, Trunc(stderr, 500)))
 						return
+					}
+					if strings.Contains(stderr, "fatal error: concurrent map") {
+						// Timing dependent by nature: the original crash dump is the evidence, no reproduction is demanded.
+						fatal, stack := splitFatal(stderr)
+						sig, _ := ClassifyStack(fatal, stack)
+						mu.Lock()
+						total.addViolation(Violation{Property: propID, Signature: sig, What: "process died: " + Trunc(fatal, 200), Tier: tier, Seed: seed,
+							Index: idx, Replica: st.replica, Detail: map[string]any{"exit": exit, "stderr": Trunc(lastLines(stderr, 80), 8000)}}, true)
+						mu.Unlock()
+						st.skip = append(st.skip, idx)
+						if ck != nil && ck.Next > st.from {
+							st.from = ck.Next
+						}
+						st.seg++
+						st.restarts++
+						if st.restarts > 40 {
+							return
+						}
+						continue
 					}
 					// Confirm by re-running that case alone in a fresh process.
 					ca := a
